@@ -164,6 +164,7 @@ def _setup(scratch, tty=False):
     from vlib import c09_observe as ob
     from vlib import session
 
+    _start_exit_watchdog()
     mode = ob.self_test()
     if mode is None:
         raise common.HarnessError("C09: cannot observe child processes through /proc")
@@ -186,6 +187,22 @@ def _setup(scratch, tty=False):
         std=(sys.stdin, sys.stdout, sys.stderr), handlers=ob.handlers(), tainted=None,
         open={e["id"] for e in common.load_known(PROP) if e.get("status") == "open"})
     return _state
+
+
+def _start_exit_watchdog():
+    """ProcProxyThread is a non-daemon thread: one that is left blocked for ever (which is what the check
+    is looking for) would also keep this worker from exiting after it has delivered its result.  A daemon
+    thread ends the process once the main thread has finished."""
+    import threading
+
+    def watch():
+        main = threading.main_thread()
+        while main.is_alive():
+            time.sleep(0.25)
+        time.sleep(1.0)
+        os._exit(0)
+
+    threading.Thread(target=watch, name="c09-exit-watchdog", daemon=True).start()
 
 
 def _aliases():
@@ -448,25 +465,53 @@ def _restore_baseline():
         os.chdir(st["cwd"])
     except OSError:
         pass
+    if not ob.children() and not _extra_threads():
+        return None
+    # something was left behind: drop every holder xonsh has, collect, kill, wait
+    try:
+        from xonsh.built_ins import XSH
+
+        XSH.last = XSH.lastcmd = None
+        if getattr(XSH, "interface", None) is not None:
+            XSH.interface.lastcmd = None
+        XSH.ctx.clear()
+        XSH.all_jobs.clear()
+    except Exception:  # noqa: BLE001
+        pass
+    gc.collect()
     for pid in list(ob.children()):
         try:
             os.kill(pid, signal.SIGKILL)
         except OSError:
             pass
+    forced = False
     t0 = time.monotonic()
-    while time.monotonic() - t0 < 3.0:
+    while time.monotonic() - t0 < 4.0:
         for pid in list(ob.children()):
             try:
                 os.waitpid(pid, os.WNOHANG)
             except OSError:
                 pass
-        extra_threads = [i for i in ob.threads() if i not in st.get("base_threads", {})]
-        if not ob.children() and not extra_threads:
-            return None
+        if not ob.children() and not _extra_threads():
+            return "descriptors had to be closed by force" if forced else None
+        if not forced and time.monotonic() - t0 > 1.5 and "base_fds" in st:
+            # a helper thread blocked on a pipe whose other end this process still holds
+            for fd in ob.fd_table():
+                if fd not in st["base_fds"]:
+                    try:
+                        os.close(fd)
+                    except OSError:
+                        pass
+            forced = True
         time.sleep(0.02)
     if ob.children():
         return "children could not be reaped"
     return "helper threads of an earlier case are still running"
+
+
+def _extra_threads():
+    st = _state
+    return [i for i in st["ob"].threads() if i not in st.get("base_threads", {})]
 
 
 def check_case(case, tolerate=frozenset(), stats=None):
@@ -475,6 +520,7 @@ def check_case(case, tolerate=frozenset(), stats=None):
     ob = st["ob"]
     if "base_threads" not in st:
         st["base_threads"] = ob.threads()
+        st["base_fds"] = ob.fd_table()
     gc.enable()
     XSH = fresh_session(case["cfg"])
     _run_src("aneutral\n")
